@@ -360,7 +360,7 @@ extern "C" {
 	void randomx_vm_set_cache(randomx_vm *machine, randomx_cache* cache) {
 		assert(machine != nullptr);
 		assert(cache != nullptr && cache->isInitialized());
-		if (machine->cacheKey != cache->cacheKey || machine->getMemory() != cache->memory) {
+		if (machine->cacheKey != cache->cacheKey || machine->getMemory() != cache->memory || machine->getCache() != cache) {
 			machine->setCache(cache);
 			machine->cacheKey = cache->cacheKey;
 		}
